@@ -13,6 +13,7 @@ ID = "C08"
 LEVEL = "exploration"
 QUICK_SHARDS = 4
 MIN_NONTRIVIAL = 50
+FUZZ_RUNS = 160000     # thorough tier: atheris executions (all children)
 RULE = (
     "(from_graphs) atom set of 1-10 atoms; bond sets R, P and TS >= R u P "
     "(TS optional); three stereo-valid, fully specified decorations so that "
@@ -326,5 +327,5 @@ def run(ctx):
             labs.append(f"cls:{case['x']['cls']}")
         ctx.note(case, bool(nt), labs)
 
-    ctx.hyp("c08", S.tapes(1800).map(gen), check, ctx.scale(6000, 250000),
+    ctx.hyp("c08", S.mapped(1800, gen), check, ctx.scale(6000, 250000),
             shrinker=shrink)
